@@ -175,6 +175,13 @@ func readBackType(t *rapid.T) gen.TypeSpec {
 
 	ts.Derived = rapid.Bool().Draw(t, "derived")
 
+	// A type may have relationships only.
+	if len(ts.Rels) > 0 && rapid.IntRange(0, 9).Draw(t, "relsonly") == 0 {
+		ts.Attrs = nil
+
+		return ts
+	}
+
 	// Names are case-sensitive: an attribute whose name only differs from
 	// another one's by letter case is a field of its own (of any kind).
 	have := map[string]bool{}
@@ -247,6 +254,10 @@ func TestC17ReadBack(t *testing.T) {
 
 		t.Repeat(map[string]func(*rapid.T){
 			"SetAttr": func(t *rapid.T) {
+				if len(ts.Attrs) == 0 {
+					t.Skip("no attribute")
+				}
+
 				a := ts.Attrs[rapid.IntRange(0, len(ts.Attrs)-1).Draw(t, "attr")]
 				v := gen.Value(t, a, "val")
 
